@@ -12,10 +12,17 @@ message."
 
 * model of the code: `TV.Ext` (`Model/Ext.lean`); the encoder it is checked against:
   `TV.Rfc4884` (`Spec/Rfc4884.lean`, written from the RFCs).
-* `fixed = true` is the code with the length attribute widened before it is scaled
-  (`usize::from(get_length()) * 4`); `fixed = false` is the code as it is today, where the `u8`
-  multiplication overflows for length attributes ≥ 64 (ICMPv4) / ≥ 32 (ICMPv6) — see
-  `current_code_panic_iff`, `current_code_roundtrip`, `witness_v4_len64`, `witness_v6_len32`.
+* the headline theorems are stated for `TV.Ext.codeIsFixed` (= `true`), the scaling the driver
+  entry `TV.Ext.handle` uses: the repaired code `usize::from(get_length()) * 4` / `* 8`.
+  `fixed := false` is the *pre-repair* code, where the `u8` multiplication overflowed for length
+  attributes ≥ 64 (ICMPv4) / ≥ 32 (ICMPv6); the old-code lemmas `current_code_panic_iff`,
+  `current_code_roundtrip`, `witness_v4_len64`, `witness_v6_len32` are about
+  `splitPayloadExtensionWith false` explicitly and stay true whatever the switch says.
+* nothing here is partial.  Label stacks of n ≥ 0 entries round-trip (an empty or too short stack
+  is reported as a stack without members: `emptyStack_reported`, `class1_short_payload`); "other"
+  objects have class ≠ 1, because class 1 with any C-Type is reported as a label stack
+  (`class1_any_ctype`).  `tracerExtract` stops at the octets handed to `Ipv4Packet::new_view` /
+  `Ipv6Packet::new_view`; what those do is C04/C12.
 * termination: `TV.Ext.objectsFrom`, `TV.Ext.objects`, `TV.Ext.members`, `TV.Ext.mapR`,
   `TV.Ext.extensionsTryFrom` are total Lean functions (no `partial`, no fuel): that they are
   accepted *is* the termination proof of `ExtensionObjectIter` and `MplsLabelStackIter`; the
@@ -47,8 +54,8 @@ theorem padOrig_recovers (fam : Bool) (mode : Mode) (orig : Buf) :
 Unreachable (`te`, `h` = the other header octets), both RFC 4884 modes (`mode`), both extension
 parse modes (`enabled`), every original datagram whose padded length fits the 8-bit length
 attribute, every checksum value and every list of well-formed objects (any class ≠ 1 with any
-C-Type and a payload of up to 65531 octets; label stacks of 1..16382 entries with S clear on all
-but the last entry), with the widened length scaling:
+C-Type and a payload of up to 65531 octets; label stacks of 0..16382 entries with S clear on all
+but the last entry), for the code as the driver runs it (`codeIsFixed`):
 
 * `payload()` is the original-datagram field, `extension()` is the extension structure, they
   partition the ICMP body (`payload_raw()`);
@@ -62,15 +69,16 @@ theorem roundtrip (fam te enabled : Bool) (h : IcmpHdr) (mode : Mode) (orig : Bu
     (hfit : lengthAttr fam mode orig ≤ 255) :
     let ext := encodeExt ckHi ckLo objs
     let icmp := buildIcmp fam h mode orig ext
-    payload true fam icmp = .ok (padOrig fam mode orig) ∧
-    extension true fam icmp = .ok (some ext) ∧
+    payload codeIsFixed fam icmp = .ok (padOrig fam mode orig) ∧
+    extension codeIsFixed fam icmp = .ok (some ext) ∧
     payloadRaw icmp = .ok (padOrig fam mode orig ++ ext) ∧
     extensionsTryFrom ext = .ok (objs.map Obj.expected) ∧
-    tracerExtract true fam te enabled icmp =
+    tracerExtract codeIsFixed fam te enabled icmp =
       (if te && !enabled then .ok (padOrig fam mode orig ++ ext, none)
        else if enabled then .ok (padOrig fam mode orig, some (objs.map Obj.expected))
        else .ok (padOrig fam mode orig, none)) := by
   intro ext icmp
+  simp only [codeIsFixed]
   have hext : 4 ≤ ext.length := by simp [ext, encodeExt, extHeader]
   have hs := splitFixed_built fam h mode orig ext hext hfit
   refine ⟨?_, ?_, ?_, extensionsTryFrom_encode ckHi ckLo objs hwf,
@@ -82,41 +90,57 @@ theorem roundtrip (fam te enabled : Bool) (h : IcmpHdr) (mode : Mode) (orig : Bu
 /-- the split alone does not care what the extension structure contains -/
 theorem roundtrip_split (fam : Bool) (h : IcmpHdr) (mode : Mode) (orig ext : Buf)
     (hext : 4 ≤ ext.length) (hfit : lengthAttr fam mode orig ≤ 255) :
-    splitPayloadExtensionFixed fam (buildIcmp fam h mode orig ext) =
+    splitPayloadExtensionWith codeIsFixed fam (buildIcmp fam h mode orig ext) =
       .ok (padOrig fam mode orig, some ext) :=
   splitFixed_built fam h mode orig ext hext hfit
 
-/-- The same messages with the code as it is today: the round trip holds only while the padded
-original datagram is shorter than 256 octets, otherwise the `u8` multiplication panics. -/
+/-- **Pre-repair code (`fixed := false`).**  With the `u8` multiplication the round trip held only
+while the padded original datagram was shorter than 256 octets; beyond that the multiplication
+panicked. -/
 theorem current_code_roundtrip (fam : Bool) (h : IcmpHdr) (mode : Mode) (orig ext : Buf)
     (hext : 4 ≤ ext.length) (hfit : lengthAttr fam mode orig ≤ 255) :
-    splitPayloadExtension fam (buildIcmp fam h mode orig ext) =
+    splitPayloadExtensionWith false fam (buildIcmp fam h mode orig ext) =
       if lengthAttr fam mode orig * unitOf fam > 255 then .panic
       else .ok (padOrig fam mode orig, some ext) :=
   splitCurrent_built fam h mode orig ext hext hfit
 
-/-- a sender following RFC 4950 to the letter (S set exactly on the last entry) is covered -/
-theorem bosExact_wf (ms : List MplsMember) (hne : ms ≠ []) (hlen : ms.length ≤ 16382)
+/-- a sender following RFC 4950 to the letter (S set exactly on the last entry) is covered,
+for any number of entries -/
+theorem bosExact_wf (ms : List MplsMember) (hlen : ms.length ≤ 16382)
     (hok : ∀ m ∈ ms, memberOk m) (hb : bosExact ms) : (Obj.mpls ms).wf :=
-  ⟨hne, hlen, hok, hb.1⟩
+  ⟨hlen, hok, hb.1⟩
 
-/-- **n = 0 (suspected defect).**  A label stack object without entries makes
-`Extensions::try_from` return `Err(InsufficientPacketBuffer)`; the `?` in `extract_probe_resp`
-then discards the whole response, including every well-formed object before and after it. -/
-theorem emptyStack_err (ckHi ckLo : UInt8) (objs rest : List Obj) (h : ∀ o ∈ objs, o.wf) :
-    extensionsTryFrom (encodeExt ckHi ckLo (objs ++ Obj.mpls [] :: rest)) = .err .pktShort :=
-  extensionsTryFrom_emptyStack ckHi ckLo objs rest h
+/-- **n = 0.**  A label stack object without entries is reported as a label stack without
+members, in place, and every object before and after it is reported as encoded. -/
+theorem emptyStack_reported (ckHi ckLo : UInt8) (objs rest : List Obj)
+    (h : ∀ o ∈ objs, o.wf) (h' : ∀ o ∈ rest, o.wf) :
+    extensionsTryFrom (encodeExt ckHi ckLo (objs ++ Obj.mpls [] :: rest)) =
+      .ok (objs.map Obj.expected ++ Extension.mpls [] :: rest.map Obj.expected) := by
+  have hw : ∀ o ∈ objs ++ Obj.mpls [] :: rest, o.wf := by
+    intro o ho
+    rcases List.mem_append.mp ho with ho | ho
+    · exact h o ho
+    · rcases List.mem_cons.mp ho with ho | ho
+      · subst ho; simp [Obj.wf]
+      · exact h' o ho
+  rw [extensionsTryFrom_encode ckHi ckLo _ hw]
+  simp [Obj.expected]
 
 /-- concrete bytes: header `20 00 00 00`, object `00 04 01 01` -/
 theorem witness_emptyStack :
-    extensionsTryFrom [0x20, 0, 0, 0, 0, 4, 1, 1] = .err .pktShort :=
-  emptyStack_err 0 0 [] [] (by simp)
+    extensionsTryFrom [0x20, 0, 0, 0, 0, 4, 1, 1] = .ok [.mpls []] :=
+  emptyStack_reported 0 0 [] [] (by simp) (by simp)
+
+/-- a class-1 object with a payload of 1..3 octets (no room for an entry) likewise -/
+theorem class1_short_payload (s : Nat) (p tail : Buf) (hp : p.length < 4) :
+    objectOf (encodeObject 1 s p ++ tail) = .ok (.mpls []) :=
+  objectOf_class1_short s p tail hp
 
 /-- **C-Type is ignored for class 1 (deviation).**  Any class-1 object is reported as an MPLS
 label stack, also when its C-Type is not 1 (RFC 4950 defines C-Type 1 only). -/
 theorem class1_any_ctype (s : Nat) (ms : List MplsMember) (tail : Buf) (h : (Obj.mpls ms).wf) :
     objectOf (encodeObject 1 s (encodeStack ms) ++ tail) = .ok (.mpls ms) :=
-  objectOf_class1 s ms tail h.1 h.2.1 h.2.2.1 h.2.2.2
+  objectOf_class1 s ms tail h.1 h.2.1 h.2.2
 
 /-! ## (b) arbitrary octets -/
 
@@ -143,15 +167,16 @@ theorem split_inside (n : Nat) (body : Buf) :
     omega
 
 /-- **C14 (b), the packet accessors.**  For every received ICMP message of at least 8 octets
-(which `*Packet::new_view` guarantees), with the widened scaling, `split_payload_extension`
-returns normally and its results lie inside the ICMP body without overlapping. -/
+(which `*Packet::new_view` guarantees), `split_payload_extension` (as the driver runs it,
+`codeIsFixed`) returns normally and its results lie inside the ICMP body without overlapping. -/
 theorem accessors_inside (fam : Bool) (icmp : Buf) (h : 8 ≤ icmp.length) :
-    ∃ p eo, splitPayloadExtensionFixed fam icmp = .ok (p, eo) ∧
-      payload true fam icmp = .ok p ∧ extension true fam icmp = .ok eo ∧
+    ∃ p eo, splitPayloadExtensionWith codeIsFixed fam icmp = .ok (p, eo) ∧
+      payload codeIsFixed fam icmp = .ok p ∧ extension codeIsFixed fam icmp = .ok eo ∧
       payloadRaw icmp = .ok (icmp.drop 8) ∧
       p <+: icmp.drop 8 ∧
       ∀ e, eo = some e → e <:+ icmp.drop 8 ∧ e <:+ icmp ∧ 4 ≤ e.length ∧
         p.length + e.length ≤ (icmp.drop 8).length := by
+  simp only [codeIsFixed]
   have hs := splitWith_fixed fam icmp h
   have hin := split_inside ((lengthOctet fam icmp).toNat * unitOf fam) (icmp.drop 8)
   refine ⟨_, _, hs, ?_, ?_, payloadRaw_ok icmp h, hin.1, ?_⟩
@@ -161,45 +186,66 @@ theorem accessors_inside (fam : Bool) (icmp : Buf) (h : 8 ≤ icmp.length) :
     have := hin.2 e he
     exact ⟨this.1, this.1.trans (List.drop_suffix _ _), this.2.1, this.2.2.1⟩
 
-/-- **Exact panic condition of the code as it is today** (dev profile, overflow checks on):
-`split_payload_extension`, hence `payload()` and `extension()`, panic precisely when the length
-attribute is ≥ 64 (ICMPv4) / ≥ 32 (ICMPv6), whatever the rest of the message. -/
+/-- **C14 (b), no panic.**  On any ICMP message of at least 8 octets nothing panics, in any parse
+mode (the code as the driver runs it). -/
+theorem fixed_code_no_panic (fam te enabled : Bool) (icmp : Buf) (h : 8 ≤ icmp.length) :
+    splitPayloadExtensionWith codeIsFixed fam icmp ≠ .panic ∧
+    tracerExtract codeIsFixed fam te enabled icmp ≠ .panic :=
+  ⟨splitFixed_ne_panic fam icmp h, tracerExtract_ne_panic fam te enabled icmp h⟩
+
+/-- **Pre-repair code (`fixed := false`), exact panic condition** (dev profile, overflow checks
+on): `split_payload_extension`, hence `payload()` and `extension()`, panicked precisely when the
+length attribute was ≥ 64 (ICMPv4) / ≥ 32 (ICMPv6), whatever the rest of the message. -/
 theorem current_code_panic_iff (fam : Bool) (icmp : Buf) (h : 8 ≤ icmp.length) :
-    splitPayloadExtension fam icmp = .panic ↔
+    splitPayloadExtensionWith false fam icmp = .panic ↔
       (lengthOctet fam icmp).toNat ≥ (if fam then 32 else 64) :=
   splitCurrent_panic_iff fam icmp h
 
-/-- ICMPv4 Time Exceeded, length attribute 64 (a 256-octet original datagram field) -/
+/-- pre-repair code: ICMPv4 Time Exceeded, length attribute 64 (a 256-octet original datagram
+field); the repaired code returns the (empty) body -/
 theorem witness_v4_len64 :
-    splitPayloadExtension false [11, 0, 0, 0, 0, 64, 0, 0] = .panic := by
-  rw [current_code_panic_iff false _ (by simp)]; simp [lengthOctet, lengthOffset]
+    splitPayloadExtensionWith false false [11, 0, 0, 0, 0, 64, 0, 0] = .panic ∧
+    splitPayloadExtensionWith true false [11, 0, 0, 0, 0, 64, 0, 0] = .ok ([], none) := by
+  constructor
+  · rw [current_code_panic_iff false _ (by simp)]; simp [lengthOctet, lengthOffset]
+  · rw [splitWith_fixed false _ (by simp)]; simp [split]
 
-/-- ICMPv6 Time Exceeded, length attribute 32 -/
+/-- pre-repair code: ICMPv6 Time Exceeded, length attribute 32 -/
 theorem witness_v6_len32 :
-    splitPayloadExtension true [3, 0, 0, 0, 32, 0, 0, 0] = .panic := by
-  rw [current_code_panic_iff true _ (by simp)]; simp [lengthOctet, lengthOffset]
-
-/-- with the widened scaling nothing panics, in any parse mode -/
-theorem fixed_code_no_panic (fam te enabled : Bool) (icmp : Buf) (h : 8 ≤ icmp.length) :
-    splitPayloadExtensionFixed fam icmp ≠ .panic ∧
-    tracerExtract true fam te enabled icmp ≠ .panic :=
-  ⟨splitFixed_ne_panic fam icmp h, tracerExtract_ne_panic fam te enabled icmp h⟩
+    splitPayloadExtensionWith false true [3, 0, 0, 0, 32, 0, 0, 0] = .panic ∧
+    splitPayloadExtensionWith true true [3, 0, 0, 0, 32, 0, 0, 0] = .ok ([], none) := by
+  constructor
+  · rw [current_code_panic_iff true _ (by simp)]; simp [lengthOctet, lengthOffset]
+  · rw [splitWith_fixed true _ (by simp)]; simp [split]
 
 /-- **C14 (b), objects.**  For every extension buffer, every object view the iterator yields is a
 suffix of the buffer of at least 4 octets whose declared length is between 4 and the octets
-available, so that `payload()` returns normally and the payload lies inside the buffer. -/
+available, so that `payload()` is exactly the declared `[4..length]` (the clamp is inactive) and
+lies inside the buffer. -/
 theorem objects_inside (ext o : Buf) (h : o ∈ objects ext) :
     o <:+ ext ∧ 4 ≤ o.length ∧ 4 ≤ be16At o ∧ be16At o ≤ o.length ∧
     objPayload o = .ok ((o.take (be16At o)).drop 4) ∧ (o.take (be16At o)).drop 4 <:+: ext := by
   have hm := objects_mem ext o h
   refine ⟨hm.1, hm.2.1, hm.2.2.1, hm.2.2.2, ?_, ?_⟩
-  · obtain ⟨a, b, c, d, t, rfl⟩ := exists_cons4 o hm.2.1
-    have h2 := hm.2.2.1
-    have h3 := hm.2.2.2
-    rw [be16At_cons] at h2 h3 ⊢
-    simp only [List.length_cons] at h3
-    rw [objPayload_cons4, if_pos ⟨h2, by omega⟩]
+  · rw [objPayload_ok o hm.2.1]
+    have : max 4 (min (be16At o) o.length) = be16At o := by
+      have h2 := hm.2.2.1
+      have h3 := hm.2.2.2
+      omega
+    rw [this]
   · exact ((List.drop_suffix _ _).isInfix.trans (List.take_prefix _ _).isInfix).trans hm.1.isInfix
+
+/-- **`ExtensionObjectPacket::payload()` is total** on every view of at least 4 octets (which
+`new_view` guarantees), whatever the declared length: the slice end is clamped to `[4, len]`, the
+result is inside the view.  (Before the repair `[0,3,0,0]` and `[0,8,0,0]` panicked.) -/
+theorem objPayload_total (o : Buf) (h : 4 ≤ o.length) :
+    objPayload o = .ok ((o.take (max 4 (min (be16At o) o.length))).drop 4) ∧
+    (o.take (max 4 (min (be16At o) o.length))).drop 4 <:+: o ∧
+    objPayload [0, 3, 0, 0] = .ok [] ∧ objPayload [0, 8, 0, 0] = .ok [] := by
+  refine ⟨objPayload_ok o h,
+    (List.drop_suffix _ _).isInfix.trans (List.take_prefix _ _).isInfix, ?_, ?_⟩
+  · rw [objPayload_cons4]; simp
+  · rw [objPayload_cons4]; simp
 
 /-- the object iterator yields at most `(len - 4) / 4` items -/
 theorem objects_count (ext : Buf) : 4 * (objects ext).length ≤ ext.length - 4 := by
@@ -218,15 +264,25 @@ theorem members_inside (stack m : Buf) (h : m ∈ members stack) :
 theorem members_count (stack : Buf) : 4 * (members stack).length ≤ stack.length :=
   members_length stack
 
-/-- **C14 (b), `Extensions::try_from` never panics**, on any octets; it fails with
-`InsufficientPacketBuffer` for fewer than 4 octets and reports nothing for a version ≠ 2. -/
+/-- **C14 (b), `Extensions::try_from` is total and fails only on a missing header.**  On any
+octets it never panics; it returns `Err(InsufficientPacketBuffer)` exactly when there are fewer
+than 4 octets; otherwise it returns `Ok` with at most `(len - 4) / 4` extensions, and nothing for a
+version ≠ 2. -/
 theorem tryFrom_total (ext : Buf) :
     extensionsTryFrom ext ≠ .panic ∧
     (ext.length < 4 → extensionsTryFrom ext = .err .pktShort) ∧
+    (4 ≤ ext.length → ∃ xs, extensionsTryFrom ext = .ok xs ∧ 4 * xs.length ≤ ext.length - 4) ∧
+    ((∃ e, extensionsTryFrom ext = .err e) ↔ ext.length < 4) ∧
     (4 ≤ ext.length → (ext.getD 0 0).toNat / 16 ≠ 2 → extensionsTryFrom ext = .ok []) := by
-  refine ⟨extensionsTryFrom_ne_panic ext, ?_, extensionsTryFrom_version ext⟩
-  intro h
-  simp [extensionsTryFrom, h]
+  refine ⟨extensionsTryFrom_ne_panic ext, extensionsTryFrom_short ext, extensionsTryFrom_ok ext,
+    ?_, extensionsTryFrom_version ext⟩
+  constructor
+  · rintro ⟨e, he⟩
+    by_cases h : ext.length < 4
+    · exact h
+    · obtain ⟨xs, hxs, _⟩ := extensionsTryFrom_ok ext (by omega)
+      rw [hxs] at he; cases he
+  · intro h; exact ⟨_, extensionsTryFrom_short ext h⟩
 
 /-! ## non-vacuity -/
 
@@ -247,19 +303,30 @@ example :
     (by simp [lengthAttr])).2.2.2.1
 
 example (h : IcmpHdr) :
-    payload true false (buildIcmp false h .compliant (List.replicate 28 7)
+    payload codeIsFixed false (buildIcmp false h .compliant (List.replicate 28 7)
       (encodeExt 0 0 sampleObjs)) = .ok (List.replicate 28 7 ++ List.replicate 100 0) :=
   (roundtrip false true true h .compliant (List.replicate 28 7) 0 0 sampleObjs sampleObjs_wf
     (by simp [lengthAttr, paddedLen, unit])).1
 
--- a 253-octet original datagram (length attribute 64): fine once fixed, panics today
+-- a 253-octet original datagram (length attribute 64): panicked before the repair
 example (h : IcmpHdr) :
-    splitPayloadExtension false (buildIcmp false h .compliant (List.replicate 253 7)
+    splitPayloadExtensionWith false false (buildIcmp false h .compliant (List.replicate 253 7)
       (encodeExt 0 0 [])) = .panic := by
   rw [current_code_roundtrip false h .compliant _ _ (by simp [encodeExt, extHeader])
     (by simp only [lengthAttr, paddedLen, unit, List.length_replicate]; decide)]
   simp only [lengthAttr, paddedLen, unit, unitOf, List.length_replicate]
   decide
+
+-- ... and round-trips now (`roundtrip_split` applies: the length attribute fits)
+example (h : IcmpHdr) :
+    splitPayloadExtensionWith codeIsFixed false (buildIcmp false h .compliant (List.replicate 253 7)
+      (encodeExt 0 0 [])) =
+      .ok (padOrig false .compliant (List.replicate 253 7), some (encodeExt 0 0 [])) :=
+  roundtrip_split false h .compliant _ _ (by simp [encodeExt, extHeader])
+    (by simp only [lengthAttr, paddedLen, unit, List.length_replicate]; decide)
+
+-- label stacks without entries are covered by `roundtrip`
+example : (Obj.mpls []).wf := by simp [Obj.wf]
 
 -- `split` does return extensions (the second disjunct of `split_cases` is inhabited)
 example (a : Buf) (ha : a.length = 128) : split 0 (a ++ [0x20, 0, 0, 0]) = (a, some [0x20, 0, 0, 0]) :=
@@ -272,8 +339,9 @@ end TV.Props.C14
 #print axioms TV.Props.C14.roundtrip_split
 #print axioms TV.Props.C14.current_code_roundtrip
 #print axioms TV.Props.C14.bosExact_wf
-#print axioms TV.Props.C14.emptyStack_err
+#print axioms TV.Props.C14.emptyStack_reported
 #print axioms TV.Props.C14.witness_emptyStack
+#print axioms TV.Props.C14.class1_short_payload
 #print axioms TV.Props.C14.class1_any_ctype
 #print axioms TV.Props.C14.split_inside
 #print axioms TV.Props.C14.accessors_inside
@@ -286,3 +354,4 @@ end TV.Props.C14
 #print axioms TV.Props.C14.members_inside
 #print axioms TV.Props.C14.members_count
 #print axioms TV.Props.C14.tryFrom_total
+#print axioms TV.Props.C14.objPayload_total
